@@ -50,6 +50,10 @@ func (c *regexpPatternChecker) VisitExpr(x ast.Expr) {
 		return
 	}
 
+	if !isPkgFunc(c.ctx, call.Fun, "regexp") {
+		return
+	}
+
 	switch qualifiedName(call.Fun) {
 	case "regexp.Compile", "regexp.CompilePOSIX", "regexp.MustCompile", "regexp.MustCompilePosix":
 		cv := c.ctx.TypesInfo.Types[call.Args[0]].Value
